@@ -257,6 +257,11 @@ func (c *rejectTrafficShapingController) PerformChecking(arg interface{}, batchC
 		return base.NewTokenResultBlockedWithCause(base.BlockTypeHotSpotParamFlow, msg, c.BoundRule(), nil)
 	}
 	maxCount := tokenCount + c.burstCount
+	if maxCount < tokenCount {
+		// threshold+burst does not fit 64 bits (a practically unlimited value): saturate instead of
+		// wrapping to a negative capacity, which rejected every request
+		maxCount = math.MaxInt64
+	}
 	if batchCount > maxCount {
 		// return blocked because the batch number is more than max count of rejectTrafficShapingController
 		msg := fmt.Sprintf("hotspot reject check blocked, request batch count is more than max token count, arg: %v", arg)
